@@ -10,7 +10,24 @@ use serde_json::{Value, json};
 
 pub struct C10;
 
+/// see c03::judge: with `simplify = true` the engine ran on the simplified system; a violation
+/// that disappears without simplification is attributed to simplification and only counted
 pub fn judge(scn: &McScenario, obs: &McObservation, acc: &mut Acc) -> Option<Violation> {
+    let v = judge_raw(scn, obs, acc)?;
+    if scn.cfg.simplify {
+        let mut plain = scn.clone();
+        plain.cfg.simplify = false;
+        let obs2 = plain.execute(false);
+        let mut scratch = Acc::default();
+        if judge_raw(&plain, &obs2, &mut scratch).is_none() {
+            acc.count("note.discrepancy_attributed_to_simplification", 1);
+            return None;
+        }
+    }
+    Some(v)
+}
+
+fn judge_raw(scn: &McScenario, obs: &McObservation, acc: &mut Acc) -> Option<Violation> {
     let r = reach(&scn.sys, 0);
     let reachable = r.min_bad_depth.is_some();
     let mk = |oracle: &str, class: &str, site: String, detail: String| Violation {
